@@ -52,9 +52,12 @@ def suite(wt):
          timeout=3600)
   tail = (p.stdout + p.stderr).strip().splitlines()[-1:]
   failed = []
+  passed = 0
   import xml.etree.ElementTree as ET
   try:
     for tc in ET.parse(junit).getroot().iter('testcase'):
+      if not any(ch.tag in ('failure', 'error', 'skipped') for ch in tc):
+        passed += 1
       if any(ch.tag in ('failure', 'error') for ch in tc):
         cls = tc.get('classname', '')
         mod, _, k = cls.rpartition('.')
@@ -62,7 +65,9 @@ def suite(wt):
   except Exception as e:  # pylint: disable=broad-except
     failed.append(f'junit parse error {e}')
   new_fail = [f for f in failed if f not in KNOWN_FAIL and 'regrid_test' not in f]
-  return {'summary': tail, 'unexpected_failures': new_fail}
+  if passed < 395:
+    new_fail.append(f'only {passed} tests passed (< 395 baseline)')
+  return {'summary': tail, 'passed': passed, 'unexpected_failures': new_fail}
 
 
 def validate(pid, src, with_suite=True):
